@@ -371,6 +371,10 @@ class BMSMap(Map[BMSNoteList, BMSHitList, BMSHoldList, BMSBpmList], BMSMapMeta):
         #                       Snap(measure, 0, metronome))
         #     )
 
+        # Data lines can come in any order: sort before looking for the
+        # override below (stable, the header BPM stays first among equals).
+        bcs_s.sort(key=lambda x: x.snap)
+
         if len(bcs_s) > 1 and bcs_s[1].snap.measure == 0 and bcs_s[1].snap.beat == 0:
             # Special case:
             # A Measure 0 Beat 0 BPM Change: overriding the global BPM
